@@ -210,16 +210,29 @@ func (cli *Client) handshake(c diam.Conn) (diam.Conn, error) {
 	// See sm.go for Base Diam Idx declarations
 	cli.Handler.mux.HandleIdx(baseCERIdx, diam.HandlerFunc(cerClientHandler))
 	cli.Handler.mux.HandleFunc("CER", cerClientHandler)
-	// Handle CEA and DWA.
+	// Handle CEA and DWA. The channels on which they are reported belong to
+	// this connection and travel in its context: one Client, and so one
+	// mux, may be used for several connections, and a handler bound to the
+	// channels of the latest dial would take the answers of all of them.
 	errc := make(chan error, 1)
-	cli.Handler.mux.Handle("CEA", handleCEA(cli.Handler, errc))
-
 	var dwac chan struct{}
 	if cli.EnableWatchdog {
 		// Buffered: the reader may see the DWA before the watchdog
 		// goroutine is back from writing the DWR and waits for it.
 		dwac = make(chan struct{}, 1)
-		cli.Handler.mux.Handle("DWA", handshakeOK(handleDWA(cli.Handler, dwac)))
+	}
+	c.SetContext(context.WithValue(c.Context(), dialKey{}, &dial{errc: errc, dwac: dwac}))
+	cli.Handler.mux.HandleFunc("CEA", func(c diam.Conn, m *diam.Message) {
+		if d, ok := c.Context().Value(dialKey{}).(*dial); ok {
+			handleCEA(cli.Handler, d.errc)(c, m)
+		}
+	})
+	if cli.EnableWatchdog {
+		cli.Handler.mux.Handle("DWA", handshakeOK(func(c diam.Conn, m *diam.Message) {
+			if d, ok := c.Context().Value(dialKey{}).(*dial); ok && d.dwac != nil {
+				handleDWA(cli.Handler, d.dwac)(c, m)
+			}
+		}))
 	}
 	// MaxRetransmits+1 transmissions. Counted as uint: int(MaxRetransmits)+1
 	// is zero or negative for budgets near the top of the type.
@@ -249,6 +262,15 @@ func (cli *Client) handshake(c diam.Conn) (diam.Conn, error) {
 	c.Close()
 	return nil, ErrHandshakeTimeout
 }
+
+// dial holds the channels of one connection's handshake and watchdog; it is
+// kept in the connection's context under dialKey.
+type dial struct {
+	errc chan error
+	dwac chan struct{}
+}
+
+type dialKey struct{}
 
 func (cli *Client) makeCER(hostIPAddresses []datatype.Address) *diam.Message {
 	m := diam.NewRequest(diam.CapabilitiesExchange, 0, cli.Dict)
